@@ -122,6 +122,7 @@ def sig_of(case, clause):
     s.update(case["d"])
     s.update(case["tags"])
     s["first"] = case.get("first", "conn")
+    s["between"] = "%s" % ((case.get("between") or {}).get("kind", "none"))
     return s
 
 
